@@ -14,7 +14,10 @@ Correspondence (model <-> /repo), every run:
         and, written independently, in Python below).
   (iv)  Globber on random MemoryFS trees: fs.glob(pattern) vs filter over an unpruned walk,
         count(), count_lines(), remove() (on copies).
-  (v)   LRUCache and the cached match vs the LRU model.
+  (v)   LRUCache, the cached match, and every user of the two process-wide _PATTERN_CACHEs
+        (match/imatch, the Globber, wildcard) in one history vs `Glob.runAll`; the same pattern text
+        in both case modes interleaved within one process (Globber ci -> match/Globber cs, reverse,
+        imatch first), nothing cleared in between, every answer vs the cache-free model and the spec.
 
 Oracle.  The property itself is `code == documented semantics`.  After the repairs in /repo
 (810a9af, 2f2ca27, 81a3019, 8d610d8) two classes remain open (known_findings.json): a directory
@@ -650,24 +653,61 @@ def w_globber(job):
 
     out = {"mismatch": [], "n_mismatch": 0, "evals": 0, "hist": {}, "known": {}, "nontrivial": [], "programs": 0}
     hist = out["hist"]
+    # the model's answer (no cache, `Glob.compile pat cs` on every rendered path) for every tree x pattern
+    drv = vlib.Driver()
+    walks, reqs = [], []
     for spec in seeds_specs:
         m = build_tree(spec)
         everything = full_walk(m)
+        m.close()
+        walks.append(everything)
+        rendered = [path + ("/" if d else "") for (path, d) in everything]
         for (p, cs) in patterns:
+            reqs.append("glob.mtable %s %d %s" % (hx(p), cs, hxlist(rendered)))
+    model_replies = iter(drv.batch(reqs))
+    for ti, spec in enumerate(seeds_specs):
+        m = build_tree(spec)
+        everything = walks[ti]
+        for pi, (p, cs) in enumerate(patterns):
             out["programs"] += 1
+            model = next(model_replies)
             sp = GlobSpecPy(p, cs)
             fmatch = G.match if cs else G.imatch
             case = {"kind": "globber", "tree": spec, "pattern": p, "cs": cs}
-            try:
-                want = sorted((path + ("/" if d else ""), d) for (path, d) in everything if fmatch(p, path + ("/" if d else "")))
-                want_err = None
-            except Exception as e:
-                want, want_err = None, exc_name(e)
-            try:
-                got = sorted((mt.path, bool(mt.info.is_dir)) for mt in m.glob(p, case_sensitive=cs))
-                got_err = None
-            except Exception as e:
-                got, got_err = None, exc_name(e)
+
+            def run_match():
+                try:
+                    return sorted((path + ("/" if d else ""), d) for (path, d) in everything if fmatch(p, path + ("/" if d else ""))), None
+                except Exception as e:
+                    return None, exc_name(e)
+
+            def run_glob():
+                try:
+                    return sorted((mt.path, bool(mt.info.is_dir)) for mt in m.glob(p, case_sensitive=cs)), None
+                except Exception as e:
+                    return None, exc_name(e)
+
+            # who touches the process-wide pattern cache first alternates: the Globber's own
+            # cache access (hit and miss) is exercised as well as match/imatch's
+            if (ti + pi) % 2:
+                got, got_err = run_glob()
+                want, want_err = run_match()
+            else:
+                want, want_err = run_match()
+                got, got_err = run_glob()
+            # both against the model (whatever earlier calls left in the cache)
+            if model.startswith("ok "):
+                mset = sorted((path + ("/" if d else ""), d) for (path, d), b in zip(everything, model[3:]) if b == "1")
+                for who, res, err in (("glob.match" if cs else "glob.imatch", want, want_err), ("Globber", got, got_err)):
+                    if err is None and res != mset:
+                        diff = [e for e in res if e not in mset] + [e for e in mset if e not in res]
+                        bad = [e for e in diff if not sp.unspecified
+                               and sp.matches(e[0].strip("/").split("/"), e[1]) != (e in res)]
+                        _mm(out, fn="%s vs model (same process, cache as left by earlier calls)" % who,
+                            differs_on=diff[:4], failing=bad[:2], property_fails=bool(bad), **case)
+            elif not model.startswith("err outside") and (want_err or got_err):
+                if "err " + (want_err or "") != model or "err " + (got_err or "") != model:
+                    _mm(out, fn="Globber/match raise vs model", model=model, match_raises=want_err, glob_raises=got_err, property_fails=False, **case)
             out["evals"] += len(everything)
             if want_err or got_err:
                 if want_err != got_err:
@@ -779,6 +819,159 @@ def lru_check(rep, drv, rng, n_seq):
                           "LRU cache / cached match: model %s, code %s" % (model[:120], impl[:120]),
                           found_input=False, signature="C14/lru/correspondence")
     rep.programs += len(reqs)
+
+
+def _one_file_glob(name, p, cs):
+    """Globber over a tree holding the single file `name`: does it yield /name ?"""
+    from fs.memoryfs import MemoryFS
+
+    m = MemoryFS()
+    try:
+        m.touch(name)
+        return any(x.path == "/" + name for x in m.glob(p, case_sensitive=cs))
+    finally:
+        m.close()
+
+
+def cache_history_check(rep, drv, rng, n_seq):
+    """every user of the two _PATTERN_CACHEs in one history: glob.match/imatch (m), the Globber (g),
+    wildcard.match/imatch (w) - small caches swapped in, results and final key order vs Glob.runAll"""
+    from fs.lrucache import LRUCache
+    import fs.glob as G
+    import fs.wildcard as W
+
+    pats = ["a", "A", "a*", "*.py", "*.PY", "[ab]", "?", "[b-a]", "*", "A*"]
+    names = ["a", "A", "a.py", "A.PY", "b"]
+    saved = (G._PATTERN_CACHE, W._PATTERN_CACHE)
+    reqs, impls, cases = [], [], []
+    try:
+        for _ in range(n_seq):
+            gs, ws = rng.randint(1, 3), rng.randint(1, 3)
+            G._PATTERN_CACHE, W._PATTERN_CACHE = LRUCache(gs), LRUCache(ws)
+            few = rng.sample(pats, 3)  # few texts, both case modes: collisions are the point
+            ops, results, fails = [], [], []
+            for _ in range(rng.randint(2, 9)):
+                k, p, nm, cs = rng.choice("mgw"), rng.choice(few), rng.choice(names), rng.random() < 0.5
+                ops.append(k + ("1" if cs else "0") + p + "\n" + ("/" + nm if k != "w" else nm))
+                try:
+                    if k == "m":
+                        r = (G.match if cs else G.imatch)(p, "/" + nm)
+                    elif k == "g":
+                        r = _one_file_glob(nm, p, cs)
+                    else:
+                        r = (W.match if cs else W.imatch)(p, nm)
+                    results.append("ok " + ("1" if r else "0"))
+                    want = spec_wild(p, nm, cs) if k == "w" else GlobSpecPy(p, cs).matches([nm], False)
+                    if bool(r) != want:
+                        fails.append({"op": ops[-1], "code": bool(r), "documented": want})
+                except Exception as e:
+                    results.append("err " + exc_name(e))
+            reqs.append("cache.run %d %d %s" % (gs, ws, hxlist(ops)))
+            impls.append("ok %s %s %s" % (hxlist(results),
+                                          hxlist([("1" if key[1] else "0") + key[0] for key in G._PATTERN_CACHE.keys()]),
+                                          hxlist([("1" if key[1] else "0") + key[0] for key in W._PATTERN_CACHE.keys()])))
+            cases.append(fails)
+    finally:
+        G._PATTERN_CACHE, W._PATTERN_CACHE = saved
+    shown = 0
+    for req, model, impl, fails in zip(reqs, drv.batch(reqs), impls, cases):
+        rep.evaluations += 1
+        if model != impl and shown < 3:
+            shown += 1
+            rep.violation({"kind": "lru", "request": req, "model": model, "impl": impl, "failing_input": fails[:2]},
+                          "pattern caches (match / Globber / wildcard in one history): model %s, code %s%s"
+                          % (model[:160], impl[:160], (" - failing input %r" % fails[0]) if fails else ""),
+                          found_input=bool(fails), signature="C14/cache/history")
+    rep.programs += len(reqs)
+
+
+INTERLEAVE_TREE = [("/a", False, ""), ("/A", False, ""), ("/ab", False, ""), ("/AB", False, ""), ("/a.py", False, ""),
+                   ("/A.PY", False, ""), ("/aB", False, ""), ("/b", True, None), ("/b/a", False, ""), ("/b/A.py", False, ""),
+                   ("/B", True, None), ("/B/a", False, ""), ("/B/Ab", True, None)]
+INTERLEAVE_TEMPLATES = ["{x}", "{x}*", "*{x}", "{x}?", "[{x}{y}]*", "*.{x}{y}", "*/{x}*", "**/{x}", "{x}/*", "**/*{y}", "{x}{y}", "[!{x}]*"]
+ORDERS = [
+    [("G", False), ("m", True), ("G", True), ("m", False)],
+    [("G", True), ("G", False), ("m", True), ("G", True)],
+    [("m", False), ("G", True), ("m", True), ("G", False), ("m", True)],
+    [("m", True), ("G", False), ("G", True), ("m", True)],
+]
+
+
+def cache_interleave_check(rep, drv, rng, n_pat, only=None):
+    """the same pattern text in both case modes within this one process, nothing cleared in between
+    (the process-wide _PATTERN_CACHEs are the point): Globber case-insensitive first, then
+    match / Globber case-sensitive; the reverse; imatch first; ... - every answer vs the model's
+    cache-free answer and vs the documented semantics.  wildcard.match/imatch likewise."""
+    import fs.glob as G
+    import fs.wildcard as W
+
+    letters = ["a", "A", "b", "B", "p", "Y"]
+    texts = []
+    for t in INTERLEAVE_TEMPLATES:
+        for x in letters:
+            for y in letters:
+                texts.append(t.format(x=x, y=y))
+    texts = sorted(set(texts))
+    rng.shuffle(texts)
+    texts = texts[:n_pat]
+    if only is not None:
+        texts = [only] * len(ORDERS)  # every order on this one text
+    m = build_tree(INTERLEAVE_TREE)
+    everything = full_walk(m)
+    rendered = [path + ("/" if d else "") for (path, d) in everything]
+    names = sorted({path.rsplit("/", 1)[1] for path, _d in everything})
+    reqs = []
+    for p in texts:
+        for cs in (1, 0):
+            reqs.append("glob.mtable %s %d %s" % (hx(p), cs, hxlist(rendered)))
+            reqs.append("wild.mtable %s %d %s" % (hx(p), cs, hxlist(names)))
+    replies = iter(drv.batch(reqs))
+    shown = 0
+    try:
+        for i, p in enumerate(texts):
+            model = {}
+            for cs in (True, False):
+                model[("g", cs)] = next(replies)
+                model[("w", cs)] = next(replies)
+            order = ORDERS[i % len(ORDERS)]
+            history = []
+            for kind, cs in order:
+                if kind == "G":
+                    ans = {x.path for x in m.glob(p, case_sensitive=cs)}
+                else:
+                    f = G.match if cs else G.imatch
+                    ans = {r for r in rendered if f(p, r)}
+                history.append("%s(%s)" % ("Globber" if kind == "G" else "match", "cs" if cs else "ci"))
+                rep.evaluations += len(rendered)
+                want = {r for r, b in zip(rendered, model[("g", cs)][3:]) if b == "1"}
+                if ans != want and shown < 3:
+                    shown += 1
+                    sp = GlobSpecPy(p, cs)
+                    diff = sorted(ans ^ want)
+                    bad = [r for r in diff if not sp.unspecified and sp.dev_class(*resource_of(r.lstrip("/"))) is None
+                           and sp.matches(*resource_of(r.lstrip("/"))) != (r in ans)]
+                    rep.violation({"kind": "interleave", "pattern": p, "history": history, "differs_on": diff[:5],
+                                   "failing_input": bad[:2]},
+                                  "pattern %r after %s in one process: %s differ from the cache-free answer%s"
+                                  % (p, " -> ".join(history), diff[:4],
+                                     (" - %r %s but the documented semantics say otherwise" % (bad[0], "matches" if bad[0] in ans else "does not match")) if bad else ""),
+                                  found_input=bool(bad), signature="C14/cache/interleave")
+            if "/" not in p:
+                for cs in ([False, True, False] if i % 2 else [True, False, True]):
+                    f = W.match if cs else W.imatch
+                    ans = "".join("1" if f(p, nm) else "0" for nm in names)
+                    rep.evaluations += len(names)
+                    if "ok " + ans != model[("w", cs)] and shown < 3:
+                        shown += 1
+                        bad = [nm for nm, b in zip(names, ans) if (b == "1") != spec_wild(p, nm, cs)]
+                        rep.violation({"kind": "interleave", "pattern": p, "fn": "wildcard", "cs": cs, "code": ans,
+                                       "model": model[("w", cs)], "failing_input": bad[:2]},
+                                      "wildcard pattern %r used in both case modes in one process: code %s, cache-free model %s"
+                                      % (p, ans, model[("w", cs)]), found_input=bool(bad), signature="C14/cache/interleave")
+            rep.nontrivial("interleave", p)
+    finally:
+        m.close()
+    rep.programs += len(texts)
 
 
 # ----------------------------------------------------------------------------- matchers built from pattern lists
@@ -1034,6 +1227,8 @@ def run(rep, tier, seed, deep=False):
         pool.join()
     # ---- (v) cache, matchers, witnesses
     lru_check(rep, drv, vlib.rng_for(seed, "c14-lru"), 300 if quick else 5000)
+    cache_history_check(rep, drv, vlib.rng_for(seed, "c14-cache-history"), 300 if quick else 5000)
+    cache_interleave_check(rep, drv, vlib.rng_for(seed, "c14-interleave"), 120 if quick else 432)
     matcher_check(rep, drv, vlib.rng_for(seed, "c14-matcher"), 400 if quick else 8000)
     witness_check(rep)
     rep.sample({"fn": "glob._translate_glob", "pattern": "a/**/*.py", "impl": list(impl_glob_translate("a/**/*.py"))})
@@ -1062,6 +1257,10 @@ def replay(rep, case):
         print(json.dumps({"still failing": out["mismatch"], "known deviations": sorted(out["known"])}, default=repr)[:2000])
         m.close()
         return 1 if out["mismatch"] else 0
+    if kind == "interleave":
+        before = len(rep.violations) + len(getattr(rep, "_deferred", []))
+        cache_interleave_check(rep, vlib.Driver(), vlib.rng_for(0, "replay"), 1, only=c["pattern"])
+        return 1 if len(rep.violations) + len(getattr(rep, "_deferred", [])) > before else 0
     if "pattern" in c:
         p = c["pattern"]
         o1 = w_translate(([p], p.isascii()))
